@@ -62,7 +62,7 @@ configuration); "(mismatch only)" marks a `no-failing-input-found` report.
 %d of %d seeded changes are reported by the check of the property they were written against, each with a concrete
 failing input (C18-B, a query reading shared counters with plain loads, only through a proxy: the atomic-read
 discipline of the query functions, see 11.6 - data races as such are in the half of C18 this technique cannot
-express). About a quarter of them (25) were first missed or reported only as a broken correspondence and needed the
+express). About a quarter of them were first missed or reported only as a broken correspondence and needed the
 machinery to be strengthened - new scheduler scenarios, history epilogues, tied time stamps, the packed metadata
 arena, the step limit, the post-phase frees and probes, and two genuine bugs of the checker itself (harness failures
 dropped by the shrinker; the per-tag print limit of the drivers) - see the notes above and 11.6. In round 4 the
